@@ -87,7 +87,8 @@ Lemma ext_wait_rpc : forall sc s c v u uc held, ext s (fst (fst (fst (wait_rpc s
 Proof.
   induction sc as [|t sc IH]; intros s c v u uc held; cbn [wait_rpc].
   - destruct (resp_get (c_resp (cur s c v)) u) as [[|f l]|].
-    2:{ destruct held; cbn [fst]; [apply ext_refl | apply ext_upd]. }
+    2:{ pose proof (ext_requeue s c (cur s c v) held) as Hq0.
+        destruct (requeue s c (cur s c v) held) as [s3 v3]. exact Hq0. }
     all: pose proof (ext_adapter_check s c (cur s c v) uc) as H;
       destruct (adapter_check s c (cur s c v) uc) as [[s1 v1] [x|e]]; cbn [fst] in H.
     all: try destruct (ekind_eqb (e_kind e) EMsg).
@@ -98,7 +99,8 @@ Proof.
     all: first [ eapply ext_trans; [exact H | exact Hq]
                | eapply ext_trans; [exact H|]; eapply ext_trans; [apply ext_upd | exact Hq] ].
   - destruct (resp_get (c_resp (cur s c v)) u) as [[|f l]|].
-    2:{ destruct held; cbn [fst]; [apply ext_refl | apply ext_upd]. }
+    2:{ pose proof (ext_requeue s c (cur s c v) held) as Hq0.
+        destruct (requeue s c (cur s c v) held) as [s3 v3]. exact Hq0. }
     all: pose proof (ext_adapter_check s c (cur s c v) uc) as H;
       destruct (adapter_check s c (cur s c v) uc) as [[s1 v1] [x|e]]; cbn [fst] in H.
     all: try destruct (ekind_eqb (e_kind e) EMsg).
